@@ -341,7 +341,11 @@ func (t *Transport) handleLinkLost(addrStr string, lnk *Link) {
 	verifGate("quic.lost", t, addrStr, lnk, rel)
 	t.mtx.Unlock()
 
-	if t.handler != nil && rel {
+	// always report the loss: if a newer link has taken over the address (rel is
+	// false) the handler may still hold lnk, e.g. when the newer link belongs to
+	// a different peer and therefore has a different uuid. the handler ignores
+	// links it does not know about.
+	if t.handler != nil {
 		t.handler.HandleLinkLost(lnk)
 	}
 }
